@@ -36,6 +36,17 @@ type DataNumCase struct {
 	Pair bool    `json:"pair,omitempty"`
 }
 
+// ProvCase: an operand that reaches the operator as the result of a builtin / host function /
+// local (same value as the literal V), combined with a literal operand.
+type ProvCase struct {
+	Wrap string `json:"wrap"` // formula text with %s for the literal
+	V    string `json:"v"`
+	Op   string `json:"op"`
+	Y    string `json:"y"`
+	Left bool   `json:"wrapped_is_left"`
+}
+
+var c04Prov *eng.Kind[ProvCase]
 var c04Arith *eng.Kind[ArithCase]
 var c04Chain *eng.Kind[ChainCase]
 var c04Data *eng.Kind[DataNumCase]
@@ -52,6 +63,50 @@ func init() {
 	c04Arith = eng.NewKind(c, "arith", judgeArith)
 	c04Chain = eng.NewKind(c, "chain", judgeChain)
 	c04Data = eng.NewKind(c, "data", judgeDataNum)
+	c04Prov = eng.NewKind(c, "provenance", judgeProv)
+}
+
+// value-preserving wrappers: every way a number can be "computed" before it meets an operator
+var provWraps = []string{"toInt(%s)", "round(%s)", "roundBank(%s)", "floor(%s)", "ceil(%s)", "abs(%s)", "max(%s)", "min(%s, 1e40)", "finite(%s)", "toFloat(%s)",
+	"toFloat(toString(%s))", "(%s)", "+%s", "-(-%s)", "(%s + finite(null))", "(finite(null) + %s)", "(%s * toInt(1))", "(c ? %s : 0)", "($p = %s)", "idf(%s)", "hostint(%s)", "(%s ?? 1)", "(0 || %s)", "[%s, 0] == 0 ? 0 : %s"}
+
+func judgeProv(c ProvCase) *eng.Fail {
+	if strings.Contains(c.Wrap, "== 0 ?") {
+		return nil // placeholder wrapper kept out (arrays are not compared)
+	}
+	v, y := parseOperand(c.V), parseOperand(c.Y)
+	wrapped := strings.Replace(c.Wrap, "%s", c.V, -1)
+	var expr string
+	var want ref.Dec
+	var ok bool
+	if c.Left {
+		expr = wrapped + " " + c.Op + " " + c.Y
+		want, ok = refOp(c.Op, v, y)
+	} else {
+		expr = c.Y + " " + c.Op + " " + wrapped
+		want, ok = refOp(c.Op, y, v)
+	}
+	if !ok {
+		return nil
+	}
+	data := map[string]interface{}{
+		"c":       true,
+		"idf":     func(x interface{}) (interface{}, error) { return x, nil },
+		"hostint": func(x int64) (int64, error) { return x, nil },
+	}
+	o, perr := evalSrc("["+expr+"]", data)
+	if perr != nil {
+		return eng.F("C04/parse", "%s does not parse: %v", expr, perr)
+	}
+	got, msg := elem0(o)
+	if msg != "" {
+		return eng.F("C04/eval", "%s: %s", expr, msg)
+	}
+	outcome(want.String())
+	if !got.Finite() || !got.Equal(want) {
+		return eng.F("C04/provenance-"+opName(c.Op), "%s = %s, exact result (half-even to 34 digits) is %s: the operand's history changed the arithmetic", expr, got, want)
+	}
+	return nil
 }
 
 func parseOperand(s string) ref.Dec {
@@ -415,6 +470,38 @@ func runC04(w *eng.W) {
 			}
 		})
 	})
+	// provenance: integer-valued operands that arrive as results of builtins, host functions, locals
+	provVals := []string{"7e0", "2e0", "3000000000000000000000000000000001e0", "1e0", "(-5e0)", "9007199254740993e0"}
+	provYs := []string{"3e0", "7e0", "(-3e0)", "6e0", "1000000000000000000000001e-24", "9999999999999999999999999999999999e0", "2e0"}
+	for _, wr := range provWraps {
+		if !w.Take() {
+			continue
+		}
+		for _, v := range provVals {
+			if strings.Contains(wr, "abs(") && strings.HasPrefix(v, "(-") {
+				continue
+			}
+			if strings.Contains(wr, "hostint(") && len(v) > 22 {
+				continue
+			}
+			if (strings.Contains(wr, "floor(") || strings.Contains(wr, "ceil(")) && len(v) > 18 {
+				continue // floor/ceil work in a 16-digit context: exactness beyond that is C18's domain, not claimed
+			}
+			for _, y := range provYs {
+				for _, op := range []string{"+", "-", "*", "/", "%"} {
+					for _, left := range []bool{true, false} {
+						w.State(1)
+						w.Trans(1)
+						w.Trace(1)
+						w.Note("leg:provenance", 1)
+						c := ProvCase{Wrap: wr, V: v, Op: op, Y: y, Left: left}
+						w.Sample("provenance", c)
+						c04Prov.Do(w, c)
+					}
+				}
+			}
+		}
+	}
 	// data entry
 	fs := dataFloats(q)
 	for _, f := range fs {
